@@ -420,6 +420,25 @@ func (w *Worker) explore(it item, depth int) {
 		return
 	}
 	sleep := it.sleep
+	// fast path: a single live goroutine with a single enabled transition is not a
+	// scheduling decision (sequential phases of a harness): no state bookkeeping needed
+	if len(trans) == 1 {
+		live := 0
+		for _, g := range st.gs {
+			if g.Status != gDone {
+				live++
+			}
+		}
+		if live == 1 {
+			t := trans[0]
+			g := st.findG(t.G)
+			g.Granted = &Grant{Case: t.Case, Partner: t.Partner, PCase: t.PCase}
+			g.Status = gRunnable
+			atomic.AddInt64(&e.res.Transitions, 1)
+			w.explore(item{st: st, cur: t.G, sleep: nil}, depth+1)
+			return
+		}
+	}
 	ns := atomic.AddInt64(&e.res.States, 1)
 	if ns > e.cfg.MaxStates {
 		e.res.noteInconclusive(fmt.Sprintf("BOUND-EXCEEDED: more than %d scheduling states", e.cfg.MaxStates))
